@@ -66,9 +66,10 @@ class DtDomain(Domain):
     name = "dt"
     datetime_like = True
     origin = pd.Timestamp("2020-01-01")
+    unit_ns = NS_PER_TICK
 
     def _ns(self, q):
-        n = Fraction(q) * NS_PER_TICK
+        n = Fraction(q) * self.unit_ns
         assert n.denominator == 1, q
         return int(n)
 
@@ -79,13 +80,21 @@ class DtDomain(Domain):
         x = pd.Timestamp(x)
         if x.tzinfo is not None and self.origin.tzinfo is None:
             x = x.tz_convert(None)
-        return Fraction(int((x - self.origin).value), NS_PER_TICK)
+        return Fraction(int((x - self.origin).value), self.unit_ns)
 
     def delta(self, q):
         return pd.Timedelta(self._ns(q), unit="ns")
 
     def length(self, L):
-        return Fraction(int(pd.Timedelta(L).value), NS_PER_TICK)
+        return Fraction(int(pd.Timedelta(L).value), self.unit_ns)
+
+
+class DtBigDomain(DtDomain):
+    """one tick = 365 days: value x length overflows int64 nanoseconds for values in the hundreds, which sends
+    integral/mean through the library's overflow fallback"""
+    name = "dtbig"
+    origin = pd.Timestamp("1900-01-01")
+    unit_ns = 365 * 24 * NS_PER_TICK
 
 
 class TzDomain(DtDomain):
@@ -122,9 +131,10 @@ class NpDtDomain(DtDomain):
 class TdDomain(Domain):
     name = "td"
     datetime_like = True
+    unit_ns = NS_PER_TICK
 
     def _ns(self, q):
-        n = Fraction(q) * NS_PER_TICK
+        n = Fraction(q) * self.unit_ns
         assert n.denominator == 1, q
         return int(n)
 
@@ -132,13 +142,18 @@ class TdDomain(Domain):
         return pd.Timedelta(self._ns(q), unit="ns")
 
     def tick(self, x):
-        return Fraction(int(pd.Timedelta(x).value), NS_PER_TICK)
+        return Fraction(int(pd.Timedelta(x).value), self.unit_ns)
 
     delta = pt
 
     def length(self, L):
-        return Fraction(int(pd.Timedelta(L).value), NS_PER_TICK)
+        return Fraction(int(pd.Timedelta(L).value), self.unit_ns)
 
 
-DOMAINS = {d.name: d for d in [IntDomain(), FloatDomain(), NpDomain(), DtDomain(), TzDomain(),
+class TdBigDomain(TdDomain):
+    name = "tdbig"
+    unit_ns = 365 * 24 * NS_PER_TICK
+
+
+DOMAINS = {d.name: d for d in [IntDomain(), FloatDomain(), NpDomain(), DtDomain(), DtBigDomain(), TdBigDomain(), TzDomain(),
                                TzFixedDomain(), PyDtDomain(), NpDtDomain(), TdDomain()]}
